@@ -128,21 +128,21 @@ theorem export_data (h : Hist) (mask : List Bool) (s0 s : SDs) (h0 : build .fixe
     rfl
 
 /-- **Hierarchy child.** The first query after `rejuvenate` reports the summaries of exactly the
-events selected by the parent's current filter, whatever happened before. -/
+events that the parent's current filter selects from the parent's current data — whatever was
+queried, filtered or recomputed before (in particular a change of the parent's feature data
+without any filter change). -/
 theorem child_summaries_recomputed_after_refresh (c : Child) (pre : List ChildOp) :
     (childStep (childStep (childRun c pre).1 .rejuvenate).1 .query).2 =
-      some (truth (sel (childRun c pre).1.mask c.parent)) := by
-  have hp : ∀ (ops : List ChildOp) (c : Child), (childRun c ops).1.parent = c.parent := by
-    intro ops
-    induction ops with
-    | nil => intro c; rfl
-    | cons op ops ih =>
-      intro c
-      simp only [childRun]
-      rw [ih]
-      cases op <;> rfl
+      some (truth (sel (childRun c pre).1.mask (childRun c pre).1.parent)) := by
   simp only [childStep, Option.getD_none]
-  rw [hp]
+
+/-- a refresh that keeps the cached summaries when no filter changed would be wrong: data change,
+no filter change -/
+theorem child_data_change_witness :
+    (childRun { parent := [fin 1, fin 2], mask := [true, true], arr := none, cache := none }
+      [.query, .setData [fin 5, fin 7], .rejuvenate, .query]).2 =
+    [some (truth [fin 1, fin 2]), none, none, some (truth [fin 5, fin 7])] := by
+  decide +kernel
 
 /-- between refreshes the child keeps answering from its cache (this is dclab's documented
 contract: a child is only up to date after `rejuvenate`) -/
